@@ -100,6 +100,12 @@ def whereRow (row : List Nat) : List Nat :=
 def whereOnes (mask : List (List Nat)) : List (Nat × Nat) :=
   (List.range mask.length).flatMap (fun r => (whereRow (mask.getD r [])).map (fun c => (r, c)))
 
+/-- the sensor the constructor + lines 90-96 make of a pupil mask: `n_subaps = pupil_mask.sum()` (for a 0/1 mask the
+number of cells of `numpy.where(mask == 1)`), `idx a` = the `a`-th of those cells.  `Props/C01.lean`
+(`where_links_cfg`) proves that `nsub`/`idx` of this sensor enumerate exactly the cells holding a one, in row-major order. -/
+def Wfs.ofMask (mask : List (List Nat)) (diam gsAlt gsX gsY lam : K) : Wfs K :=
+  ⟨(whereOnes mask).length, fun a => (whereOnes mask).getD a (0, 0), diam, gsAlt, gsX, gsY, lam⟩
+
 /-! ### geometry (lines 88-133) -/
 
 /-- `where(mask == 1).T * d  - D/2. - d/2.` -/
